@@ -20,18 +20,25 @@ class TopologicalSortPass(ir.passes.InPlacePass):
     """
 
     def call(self, model: ir.Model) -> ir.passes.PassResult:
-        original_nodes = list(model.graph)
+        # Record the node order of every graph that sort() may reorder: the main
+        # graph, the functions and all of their (nested) subgraphs
+        graph_likes: list[ir.Graph | ir.Function] = []
+        for graph_like in (model.graph, *model.functions.values()):
+            graph_likes.append(graph_like)
+            graph_likes.extend(graph_like.subgraphs())
+        original_orders = [list(graph_like) for graph_like in graph_likes]
+
         model.graph.sort()
-        sorted_nodes = list(model.graph)
         for function in model.functions.values():
-            original_nodes.extend(function)
             function.sort()
-            sorted_nodes.extend(function)
 
         # Compare node orders to determine if any changes were made
         modified = False
-        for node, new_node in zip(original_nodes, sorted_nodes):
-            if node is not new_node:
-                modified = True
+        for original_nodes, graph_like in zip(original_orders, graph_likes):
+            for node, new_node in zip(original_nodes, graph_like):
+                if node is not new_node:
+                    modified = True
+                    break
+            if modified:
                 break
         return ir.passes.PassResult(model=model, modified=modified)
